@@ -282,3 +282,32 @@ def scale_case(c):
         rec['ok'] = False
         rec['exc'] = type(e).__name__ + ': ' + str(e)[:80]
     return rec
+
+
+# ------------------------------------------------------------------------------------------------
+# frames produced by utils.mocker.mock_layers (implementation-level invariants, judged by Screening!MockJudge)
+# ------------------------------------------------------------------------------------------------
+def mock_case(seed):
+    import random
+    import zlib
+    from ampycloud.utils import mocker, utils as autils
+    rng = random.Random(f'mock:{seed}')
+    nce = rng.randint(1, 4)
+    lookback, gap = rng.choice([(60, 15), (120, 15), (300, 30), (90, 7)])
+    lyrs = [{'height': rng.choice([300, 1000, 2500, 8000]) + 700 * k, 'height_std': rng.choice([1, 50, 300]), 'sky_cov_frac': rng.choice([0, 0.1, 0.5, 1]),
+             'period': rng.choice([10, 100, 1800]), 'amplitude': rng.choice([0, 100, 1000])} for k in range(rng.randint(1, 4))]
+
+    def make():
+        with autils.tmp_seed(seed):
+            return mocker.mock_layers(nce, lookback, gap, lyrs)
+    df = make()
+    df2 = make()
+    hs = sorted({float(h) for h in df['height'].dropna()})
+    hrank = {h: i for i, h in enumerate(hs)}
+    ts = sorted({float(t) for t in df['dt']})
+    trank = {t: i + 1 for i, t in enumerate(ts)}
+    rows = [{'c': str(c), 't': trank[float(t)], 'h': -1 if h != h else hrank[float(h)], 'k': int(k)}
+            for c, t, h, k in zip(df['ceilo'], df['dt'], df['height'], df['type'])]
+    dig = lambda d: zlib.crc32(d.to_csv().encode()) & 0x3fffffff
+    import math
+    return {'rows': rows, 'nce': nce, 'npts': int(math.ceil(lookback / gap)), 'digest': dig(df), 'digest2': dig(df2)}
